@@ -23,9 +23,10 @@ THOROUGH_SECONDS = 900
 CASE_TIMEOUT = 300
 SHRINK_SECONDS = 90
 LEVEL = 'exploration'
-RULE = ('sweep: every (ngrid 1..64, nthread, npartition default or 1..ngrid) offered to tsc_parallel with particles on '
-        'both sides of every stripe boundary, under static and cyclic iteration assignment (complete over that box for '
-        'the accept/reject decision and the stripe geometry); seeded: random grids/configs/particles under '
+RULE = ('sweep: every (ngrid 1..64 [128 thorough], nthread 1..16, npartition default or 1..ngrid) offered to tsc_parallel '
+        'for partition axis 0 (short other axes) and axes 1, 2 (64-cell axis 0), with particles on both sides of every '
+        'stripe boundary, under static and cyclic iteration assignment (complete over that box for the accept/reject '
+        'decision and the stripe geometry); seeded: random grids/configs/particles under '
         'serial/random-walk/PCT schedules. non-trivial = configuration accepted and >= 2 simulated threads ran tasks; '
         'distinct = distinct (ngrid, nthread, npartition, coord, sort, offset, policy, strategy, switches bucket)')
 COMPONENTS = {'real': ['analysis/tsc.py: tsc_parallel (as is), partition_parallel, _tsc_parallel, _tsc_scatter, '
